@@ -19,35 +19,59 @@ import (
 // (PollingObserverFactory: head-driven sampling behind internal/util.RecoverableService); the log provider, the
 // registry, the head source and the runner are fakes that count / hold / panic through the same probe as v3.
 
-type c18V2Enc struct{ v2enc.BasicEncoder }
+// c18V2Enc is the plugin's / polling observer's encoder: the repository's BasicEncoder plus the four report methods;
+// MakeUpkeepKey (called by the observer's head task for every sampled id) is a fault site.
+type c18V2Enc struct {
+	v2enc.BasicEncoder
+	p *c18Probe
+}
 
 func (c18V2Enc) EncodeReport([]v2.UpkeepResult) ([]byte, error)       { return nil, nil }
 func (c18V2Enc) KeysFromReport([]byte) ([]v2.UpkeepKey, error)        { return nil, nil }
 func (c18V2Enc) Eligible(v2.UpkeepResult) (bool, error)               { return false, nil }
 func (c18V2Enc) Detail(v2.UpkeepResult) (v2.UpkeepKey, uint32, error) { return nil, 0, nil }
+func (e c18V2Enc) MakeUpkeepKey(b v2.BlockKey, id v2.UpkeepIdentifier) v2.UpkeepKey {
+	e.p.hit(c18SiteV2ObsEnc)
+	return e.BasicEncoder.MakeUpkeepKey(b, id)
+}
 
-type c18V2Runner struct{}
+// c18V2CoordEnc is the report coordinator's encoder; SplitUpkeepKey runs on the coordinator's poll loop for every
+// confirmed perform log.
+type c18V2CoordEnc struct {
+	v2enc.BasicEncoder
+	p *c18Probe
+}
 
-func (c18V2Runner) CheckUpkeep(context.Context, bool, ...v2.UpkeepKey) ([]v2.UpkeepResult, error) {
+func (e c18V2CoordEnc) SplitUpkeepKey(k v2.UpkeepKey) (v2.BlockKey, v2.UpkeepIdentifier, error) {
+	e.p.hit(c18SiteV2CoordEnc)
+	return e.BasicEncoder.SplitUpkeepKey(k)
+}
+
+type c18V2Runner struct{ p *c18Probe }
+
+func (r c18V2Runner) CheckUpkeep(context.Context, bool, ...v2.UpkeepKey) ([]v2.UpkeepResult, error) {
+	r.p.hit(c18SiteV2Check)
 	return nil, nil
 }
 
+// every poll returns one confirmed perform log, so that the coordinator's encoder is exercised on its loop
 type c18V2Logs struct{ p *c18Probe }
 
 func (l *c18V2Logs) PerformLogs(context.Context) ([]v2.PerformLog, error) {
 	l.p.hit(c18SiteV2Perform)
-	return nil, nil
+	return []v2.PerformLog{{Key: v2.UpkeepKey("10|7"), TransmitBlock: "11", Confirmations: 5, TransactionHash: "0xc18"}}, nil
 }
 func (l *c18V2Logs) StaleReportLogs(context.Context) ([]v2.StaleReportLog, error) {
 	l.p.hit(c18SiteV2Stale)
 	return nil, nil
 }
 
+// the registry reports one active upkeep, so that every head leads to MakeUpkeepKey and CheckUpkeep
 type c18V2Source struct{ p *c18Probe }
 
 func (s *c18V2Source) GetActiveUpkeepIDs(context.Context) ([]v2.UpkeepIdentifier, error) {
 	s.p.hit(c18SiteV2Source)
-	return nil, nil
+	return []v2.UpkeepIdentifier{v2.UpkeepIdentifier("7")}, nil
 }
 
 // c18V2Heads offers a new head every second for as long as somebody takes it (the real head ticker drops heads
@@ -78,14 +102,17 @@ func newC18V2Sys(t testing.TB, in c18Input) *c18Sys {
 	pr := newC18Probe(in.PanicSite, in.PanicAtCall, in.PanicCount, in.CoolDownNs)
 	pr.setHold(in.HoldSite, in.HoldAtCall, in.HoldNs)
 	heads := &c18V2Heads{ch: make(chan v2.BlockKey), quit: make(chan struct{})}
-	cf := &v2coord.CoordinatorFactory{Logger: quietLogger, Encoder: v2enc.BasicEncoder{}, Logs: &c18V2Logs{p: pr}, CacheClean: 30 * time.Second}
-	of := &polling.PollingObserverFactory{Logger: quietLogger, Source: &c18V2Source{p: pr}, Heads: heads, Runner: c18V2Runner{}, Encoder: c18V2Enc{}}
-	fac := v2.NewReportingPluginFactory(c18V2Enc{}, c18V2Runner{}, cf, of, quietLogger)
+	cf := &v2coord.CoordinatorFactory{Logger: quietLogger, Encoder: c18V2CoordEnc{p: pr}, Logs: &c18V2Logs{p: pr}, CacheClean: 30 * time.Second}
+	of := &polling.PollingObserverFactory{Logger: quietLogger, Source: &c18V2Source{p: pr}, Heads: heads, Runner: c18V2Runner{p: pr}, Encoder: c18V2Enc{p: pr}}
+	fac := v2.NewReportingPluginFactory(c18V2Enc{p: pr}, c18V2Runner{p: pr}, cf, of, quietLogger)
 	p, _, err := fac.NewReportingPlugin(context.Background(), ocr2types.ReportingPluginConfig{N: 4, F: 1, OffchainConfig: []byte(`{}`)})
 	if err != nil {
 		t.Fatalf("v2 NewReportingPlugin: %v", err)
 	}
 	go heads.feed()
 	return &c18Sys{probe: pr, close: p.Close, subs: func() int { return 0 }, stopEnv: func() { close(heads.quit) },
-		sites: c18SitesV2, others: []string{c18SiteV2Perform, c18SiteV2Stale, c18SiteV2Source}}
+		sites:   c18SitesV2,
+		flowRep: map[string]string{"coordinator": c18SiteV2Perform, "observer": c18SiteV2Source},
+		flowOf: map[string]string{c18SiteV2Perform: "coordinator", c18SiteV2Stale: "coordinator", c18SiteV2CoordEnc: "coordinator",
+			c18SiteV2Source: "observer", c18SiteV2ObsEnc: "observer", c18SiteV2Check: "observer"}}
 }
